@@ -17,6 +17,7 @@ import (
 	"syscall"
 
 	"github.com/postalsys/muti-metroo/internal/filetransfer"
+	"github.com/postalsys/muti-metroo/internal/health"
 )
 
 // Engine c27: the real filetransfer.UntarDirectory on real directories inside a throw-away
@@ -190,10 +191,13 @@ func c27Snapshot() string {
 	return out
 }
 
-func c27Archive(entries []string) ([]byte, error) {
+func c27Archive(entries []string, plain bool) ([]byte, error) {
 	var buf bytes.Buffer
 	gz := gzip.NewWriter(&buf)
 	tw := tar.NewWriter(gz)
+	if plain {
+		tw = tar.NewWriter(&buf)
+	}
 	for _, e := range entries {
 		f := strings.Split(e, ":")
 		var h *tar.Header
@@ -225,8 +229,10 @@ func c27Archive(entries []string) ([]byte, error) {
 	if err := tw.Close(); err != nil {
 		return nil, err
 	}
-	if err := gz.Close(); err != nil {
-		return nil, err
+	if !plain {
+		if err := gz.Close(); err != nil {
+			return nil, err
+		}
 	}
 	return buf.Bytes(), nil
 }
@@ -258,11 +264,19 @@ func c27Run(line string) string {
 	case "snap":
 		return c27Snapshot()
 	case "untar":
-		ar, err := c27Archive(f[2:])
+		ar, err := c27Archive(f[2:], false)
 		if err != nil {
 			return "bad-archive " + strings.ReplaceAll(err.Error(), " ", "_")
 		}
 		err = filetransfer.UntarDirectory(bytes.NewReader(ar), c27Real(f[1]))
+		return c27Ok(err) + " " + c27Snapshot()
+	case "untarh", "untarhp":
+		// the HTTP directory-upload path: health.extractTarWithFallback, gzip ("untarh") or plain tar ("untarhp")
+		ar, err := c27Archive(f[2:], f[0] == "untarhp")
+		if err != nil {
+			return "bad-archive " + strings.ReplaceAll(err.Error(), " ", "_")
+		}
+		err = health.VerifC27ExtractTar(bytes.NewReader(ar), c27Real(f[1]))
 		return c27Ok(err) + " " + c27Snapshot()
 	}
 	return "bad-op"
@@ -357,7 +371,18 @@ func c27Gen(w *bufio.Writer, seed int64, tier string) {
 			}
 		}
 	}
-	cases := 500
+	// the same archives go through UntarDirectory ("untar") and through the HTTP upload path
+	// health.extractTarWithFallback, gzip-compressed ("untarh") or as a plain tar ("untarhp")
+	untarOp := func() string {
+		switch r.intn(20) {
+		case 0, 1, 2, 3, 4:
+			return "untarh"
+		case 5, 6, 7:
+			return "untarhp"
+		}
+		return "untar"
+	}
+	cases := 320
 	if tier == "thorough" {
 		cases = 12000
 	}
@@ -372,8 +397,89 @@ func c27Gen(w *bufio.Writer, seed int64, tier string) {
 				es = append(es, mkEntry(k))
 			}
 			fmt.Fprintln(w, "snap")
-			fmt.Fprintf(w, "untar %s %s\n", dest, strings.Join(es, " "))
+			fmt.Fprintf(w, "%s %s %s\n", untarOp(), dest, strings.Join(es, " "))
 		}
+	}
+	// structured chains: a name is re-used across entry kinds (an empty directory replaced by a
+	// symbolic link or hard link, a link replaced by a directory or a file), link targets are built
+	// from the names of earlier link entries with "/.." suffixes, and later entries go below the
+	// replaced name.  First an enumeration of the basic shape, then random longer ones.
+	chain := func(es ...string) {
+		sentinels()
+		fmt.Fprintln(w, "pre file w/neighbour n1")
+		if r.chance(30) {
+			fmt.Fprintln(w, "pre dir "+dest)
+		}
+		fmt.Fprintln(w, "snap")
+		fmt.Fprintf(w, "%s %s %s\n", untarOp(), dest, strings.Join(es, " "))
+	}
+	helperT := []string{".", "q/..", "..", "d"}
+	replT := []string{"p/..", "p/../..", "p", "p/../../out", "../d", "p/x/.."}
+	payload := []string{"f:d/escaped:e1", "d:d/sub", "s:d/l:..", "h:d/h:p/../neighbour", "f:d/sub/deep:e2", "f:d/../neighbour:e3"}
+	for _, ht := range helperT {
+		for _, rt := range replT {
+			for _, pl := range payload {
+				if tier != "thorough" && r.chance(40) {
+					continue
+				}
+				chain("s:p:"+ht, "d:d", "s:d:"+rt, pl)
+				if r.chance(35) {
+					chain("d:d", "s:p:"+ht, "d:q", "s:d:"+rt, pl, "f:d/second:e4")
+				}
+			}
+		}
+	}
+	nchains := 100
+	if tier == "thorough" {
+		nchains = 2500
+	}
+	pool := []string{"a", "b", "d", "p", "q"}
+	for i := 0; i < nchains; i++ {
+		var es []string
+		var linkNames []string
+		var dirNames []string
+		n := 4 + r.intn(6)
+		for k := 0; k < n; k++ {
+			nm := pool[r.intn(len(pool))]
+			if len(dirNames) > 0 && r.chance(35) { // below an earlier directory name (which may be a link by now)
+				nm = dirNames[r.intn(len(dirNames))] + "/" + r.pickS("x", "sub", "l", nm)
+			}
+			tgt := func() string {
+				t := r.pickS(".", "..", "x")
+				if len(linkNames) > 0 && r.chance(70) {
+					t = linkNames[r.intn(len(linkNames))]
+				} else if len(dirNames) > 0 && r.chance(50) {
+					t = dirNames[r.intn(len(dirNames))]
+				}
+				join := func(x string) { // keep targets normalised: no "." components
+					if t == "." {
+						t = x
+					} else {
+						t += "/" + x
+					}
+				}
+				for j := r.pick(0, 1, 1, 2); j > 0; j-- {
+					join("..")
+				}
+				if r.chance(15) {
+					join(r.pickS("neighbour", "out", "d"))
+				}
+				return t
+			}
+			switch r.intn(10) {
+			case 0, 1, 2:
+				es = append(es, "d:"+nm)
+				dirNames = append(dirNames, nm)
+			case 3, 4, 5:
+				es = append(es, "s:"+nm+":"+tgt())
+				linkNames = append(linkNames, nm)
+			case 6:
+				es = append(es, "h:"+nm+":"+tgt())
+			default:
+				es = append(es, fmt.Sprintf("f:%s:k%dx%d", nm, k, r.pick(0, 3, 40)))
+			}
+		}
+		chain(es...)
 	}
 	// large / boundary inputs
 	big := 6
@@ -404,7 +510,7 @@ func c27Gen(w *bufio.Writer, seed int64, tier string) {
 			es = append(es, "f:"+p+"/x:c9x9", "d:"+p+"/newdir", "s:"+p+"/s2:..", "h:h1:"+p+"/secret")
 		}
 		fmt.Fprintln(w, "snap")
-		fmt.Fprintf(w, "untar %s %s\n", dest, strings.Join(es, " "))
+		fmt.Fprintf(w, "%s %s %s\n", untarOp(), dest, strings.Join(es, " "))
 	}
 	// exhaustive small archives over a small alphabet
 	en := []string{"a", "a/b", "a/b/c", "a/b/c/x", "x"}
@@ -421,7 +527,7 @@ func c27Gen(w *bufio.Writer, seed int64, tier string) {
 		sentinels()
 		fmt.Fprintln(w, "pre file out/sub/secret s5")
 		fmt.Fprintln(w, "snap")
-		fmt.Fprintf(w, "untar %s %s\n", dest, strings.Join(es, " "))
+		fmt.Fprintf(w, "%s %s %s\n", untarOp(), dest, strings.Join(es, " "))
 	}
 	if tier == "thorough" {
 		for _, a := range kinds {
@@ -437,7 +543,7 @@ func c27Gen(w *bufio.Writer, seed int64, tier string) {
 	} else {
 		for _, a := range kinds {
 			for _, b := range kinds {
-				if r.chance(25) {
+				if r.chance(14) {
 					emit(a, b)
 				}
 			}
